@@ -113,6 +113,9 @@ Definition covered (hp : heapT) (nu : nat) (u : nat) (l : level) : Prop :=
 Definition free_node (hp : heapT) (u : nat) (l : level) : Prop :=
   forall h a, alookup h hp = Some a -> a_uuid a = u -> a_level a = l -> False.
 
+Definition free_id (idz : list (nat * (nat * level))) (u : nat) (l : level) : Prop :=
+  forall slot, alookup slot idz = Some (u, l) -> False.
+
 (* every earlier message under the same owner (uuid, prefix) has a smaller last component *)
 Definition above (t : list msg) (u : nat) (l : level) : Prop :=
   forall m p k1 k2, In m t -> place m = mkplace u (p ++ [k1]) -> l = p ++ [k2] -> (k1 < k2)%positive.
@@ -130,7 +133,11 @@ Record PI (hp : heapT) (nu : nat) (idz : list (nat * (nat * level))) (t : list m
               a_level a = [] \/ hcovered hp (a_uuid a) (a_level a);
   pi_ids : forall slot u l, alookup slot idz = Some (u, l) -> hcovered hp u l;
   pi_trace : forall m, In m t -> exists u l, place m = mkplace u l /\ covered hp nu u l;
-  pi_order : pio t
+  pi_order : pio t;
+  (* a position used by a message is not also an action's own level, nor a serialized task id *)
+  pi_msg_node : forall m h a, In m t -> alookup h hp = Some a ->
+                place m <> mkplace (a_uuid a) (a_level a);
+  pi_msg_ids : forall m slot u l, In m t -> alookup slot idz = Some (u, l) -> place m <> mkplace u l
 }.
 
 (* heap growth: same handles keep uuid/level, _last_child only grows *)
@@ -184,7 +191,7 @@ Qed.
 Lemma PI_same_domain hp hp' nu idz t :
   PI hp nu idz t -> hext hp hp' -> hback hp hp' -> PI hp' nu idz t.
 Proof.
-  intros [Nd Uu Se Pa Id Tr Or] E B. constructor.
+  intros [Nd Uu Se Pa Id Tr Or Mn Mi] E B. constructor.
   - intros h1 h2 a1 a2 L1 L2 U V.
     destruct (B _ _ L1) as (b1 & M1 & U1 & V1 & _). destruct (B _ _ L2) as (b2 & M2 & U2 & V2 & _).
     apply (Nd h1 h2 b1 b2); congruence.
@@ -197,6 +204,8 @@ Proof.
     + left. eapply hcovered_ext; eauto.
     + right. repeat split; auto. intros h a L. destruct (B _ _ L) as (b & M & U & _). rewrite U. eauto.
   - exact Or.
+  - intros m h a I L. destruct (B _ _ L) as (b & M & U & V & _). rewrite U, V. eapply Mn; eauto.
+  - exact Mi.
 Qed.
 
 (* --- taking the next position of a heap action ------------------------- *)
@@ -214,13 +223,14 @@ Lemma PI_take hp nu idz t h a :
   PI (aset h (bump a) hp) nu idz t /\
   hcovered (aset h (bump a) hp) (a_uuid a) (nextpos a) /\
   above t (a_uuid a) (nextpos a) /\
-  free_node (aset h (bump a) hp) (a_uuid a) (nextpos a).
+  free_node (aset h (bump a) hp) (a_uuid a) (nextpos a) /\
+  free_id idz (a_uuid a) (nextpos a).
 Proof.
   intros P L.
   assert (E : hext hp (aset h (bump a) hp)) by (eapply hext_upd; eauto; cbn; lia).
   assert (B : hback hp (aset h (bump a) hp)) by (eapply hback_upd; eauto; cbn; lia).
-  split; [eapply PI_same_domain; eauto|]. destruct P as [Nd Uu Se Pa Id Tr Or].
-  split; [|split].
+  split; [eapply PI_same_domain; eauto|]. destruct P as [Nd Uu Se Pa Id Tr Or Mn Mi].
+  split; [|split; [|split]].
   - exists h, (bump a), (S (a_last a)). rewrite alookup_aset_same. cbn. repeat split; auto; lia.
   - intros m p k1 k2 I Pm EQ. rewrite nextpos_eq in EQ. apply app_tail_inj in EQ as [<- <-].
     destruct (Tr m I) as (u & l & Pm' & C). rewrite Pm in Pm'. apply mkplace_inj in Pm' as [<- <-].
@@ -234,18 +244,23 @@ Proof.
     + rewrite <- V, V0, nextpos_eq in EQ1. apply app_tail_inj in EQ1 as [V1 K].
       assert (h1 = h) by (eapply Nd; eauto; congruence). subst h1.
       rewrite L in L1; inversion L1; subst a1. lia.
+  - intros slot L0. destruct (Id _ _ _ L0) as (h1 & a1 & k1 & L1 & U1 & EQ1 & K1).
+    rewrite nextpos_eq in EQ1. apply app_tail_inj in EQ1 as [V1 K].
+    assert (h1 = h) by (eapply Nd; eauto; congruence). subst h1.
+    rewrite L in L1; inversion L1; subst a1. lia.
 Qed.
 
 (* --- a fresh uuid ------------------------------------------------------- *)
 Lemma PI_fresh_uuid hp nu idz t :
   PI hp nu idz t ->
   PI hp (S nu) idz t /\ covered hp (S nu) nu [1%positive] /\ above t nu [1%positive] /\
-  (forall h a, alookup h hp = Some a -> a_uuid a <> nu).
+  (forall h a, alookup h hp = Some a -> a_uuid a <> nu) /\
+  free_node hp nu [1%positive] /\ free_id idz nu [1%positive].
 Proof.
-  intros [Nd Uu Se Pa Id Tr Or].
+  intros [Nd Uu Se Pa Id Tr Or Mn Mi].
   assert (F : forall h a, alookup h hp = Some a -> a_uuid a <> nu).
   { intros h a L. specialize (Uu _ _ L). lia. }
-  split; [|split; [|split]]; auto.
+  split; [|split; [|split; [|split; [exact F|split]]]].
   - constructor; auto.
     + intros h a L. specialize (Uu _ _ L). lia.
     + intros m I. destruct (Tr m I) as (u & l & P & [C|(C1 & C2 & C3)]); exists u, l; split; auto.
@@ -256,6 +271,8 @@ Proof.
     rewrite Pm in Pm'. apply mkplace_inj in Pm' as [<- <-].
     destruct C as [(h0 & a0 & k0 & L0 & U0 & _)|(_ & C2 & _)]; [|lia].
     specialize (Uu _ _ L0). lia.
+  - intros h a L U _. eapply F; eauto.
+  - intros slot L. destruct (Id _ _ _ L) as (h1 & a1 & k1 & L1 & U1 & _). eapply F; eauto.
 Qed.
 
 (* --- new heap entries --------------------------------------------------- *)
@@ -266,9 +283,10 @@ Lemma PI_new hp nu idz t h a' :
   free_node hp (a_uuid a') (a_level a') ->
   (* no context-less message carries this uuid *)
   (forall m l, In m t -> place m = mkplace (a_uuid a') l -> hcovered hp (a_uuid a') l) ->
+  (forall m, In m t -> place m <> mkplace (a_uuid a') (a_level a')) ->
   PI (aset h a' hp) nu idz t.
 Proof.
-  intros [Nd Uu Se Pa Id Tr Or] L U S P F C.
+  intros [Nd Uu Se Pa Id Tr Or Mn Mi] L U S P F C Mx.
   assert (E : hext hp (aset h a' hp)) by now apply hext_new.
   constructor.
   - intros h1 h2 a1 a2. rewrite !alookup_aset.
@@ -293,16 +311,22 @@ Proof.
       * right. repeat split; auto. intros h0 a0. rewrite alookup_aset.
         destruct (Nat.eqb_spec h h0) as [<-|N]; intros L0; [now inversion L0; subst | eauto].
   - exact Or.
+  - intros m h0 a0 I. rewrite alookup_aset.
+    destruct (Nat.eqb_spec h h0) as [<-|N]; intros L0; [inversion L0; subst a0; auto | eauto].
+  - exact Mi.
 Qed.
 
 (* --- ids and the trace -------------------------------------------------- *)
 Lemma PI_ids hp nu idz t slot u l :
-  PI hp nu idz t -> hcovered hp u l -> PI hp nu (aset slot (u, l) idz) t.
+  PI hp nu idz t -> hcovered hp u l -> (forall m, In m t -> place m <> mkplace u l) ->
+  PI hp nu (aset slot (u, l) idz) t.
 Proof.
-  intros [Nd Uu Se Pa Id Tr Or] C. constructor; auto.
-  intros slot0 u0 l0. rewrite alookup_aset. destruct (Nat.eqb_spec slot slot0) as [<-|N]; intros L.
-  - now inversion L; subst.
-  - eauto.
+  intros [Nd Uu Se Pa Id Tr Or Mn Mi] C Mx. constructor; auto.
+  - intros slot0 u0 l0. rewrite alookup_aset. destruct (Nat.eqb_spec slot slot0) as [<-|N]; intros L.
+    + now inversion L; subst.
+    + eauto.
+  - intros m slot0 u0 l0 I. rewrite alookup_aset.
+    destruct (Nat.eqb_spec slot slot0) as [<-|N]; intros L; [inversion L; subst; auto | eauto].
 Qed.
 
 Lemma covered_nonempty hp nu u l : covered hp nu u l -> exists p k, l = p ++ [k].
@@ -314,12 +338,20 @@ Qed.
 
 Lemma PI_append hp nu idz t m u l :
   PI hp nu idz t -> place m = mkplace u l -> covered hp nu u l -> above t u l ->
+  free_node hp u l -> free_id idz u l ->
   PI hp nu idz (t ++ [m]).
 Proof.
-  intros [Nd Uu Se Pa Id Tr Or] Pm C A. constructor; auto.
+  intros [Nd Uu Se Pa Id Tr Or Mn Mi] Pm C A Fn Fi. constructor; auto.
   - intros m0 I. apply in_app_or in I as [I|[<-|[]]]; eauto.
   - destruct (covered_nonempty _ _ _ _ C) as (p & k & ->). econstructor; eauto.
+  - intros m0 h a I L. apply in_app_or in I as [I|[<-|[]]]; [eauto|].
+    rewrite Pm. intros Q. apply mkplace_inj in Q as [-> ->]. eapply Fn; eauto.
+  - intros m0 slot u0 l0 I L. apply in_app_or in I as [I|[<-|[]]]; [eauto|].
+    rewrite Pm. intros Q. apply mkplace_inj in Q as [-> ->]. eapply Fi; eauto.
 Qed.
+
+Lemma above_fresh t u p k m : above t u (p ++ [k]) -> In m t -> place m <> mkplace u (p ++ [k]).
+Proof. intros A I Q. specialize (A m p k k I Q eq_refl). lia. Qed.
 
 (* ====================================================================== *)
 (* 3. consequences of [pio]                                               *)
@@ -468,14 +500,21 @@ Lemma deliver_eq s m :
 Proof. intros A. unfold deliver. rewrite A. now destruct (fanout m (dests s)). Qed.
 
 Definition pending (s : state) (u : nat) (l : level) : Prop :=
-  covered (heap s) (next_uuid s) u l /\ above (trace_of s i) u l.
+  covered (heap s) (next_uuid s) u l /\ above (trace_of s i) u l /\
+  free_node (heap s) u l /\ free_id (ids s) u l.
+
+Lemma pending_fresh s u l : pending s u l -> forall m, In m (trace_of s i) -> place m <> mkplace u l.
+Proof.
+  intros (C & A & _) m I. destruct (covered_nonempty _ _ _ _ C) as (p & k & ->).
+  eapply above_fresh; eauto.
+Qed.
 
 Definition sendable (s : state) (m : msg) : Prop :=
   exists u l, place m = mkplace u l /\ pending s u l.
 
 Lemma deliver_step s m : Inv s -> sendable s m -> Step s (fst (deliver s m)).
 Proof.
-  intros [A [d D] Gu Gl P H] (u & l & Pm & C & Ab). rewrite deliver_eq by exact A. cbn [fst].
+  intros [A [d D] Gu Gl P H] (u & l & Pm & C & Ab & Fn & Fi). rewrite deliver_eq by exact A. cbn [fst].
   split; [|apply hext_refl]. pose proof (fanout_find m _ _ D) as D'.
   constructor; cbn; auto.
   - eauto.
@@ -496,11 +535,11 @@ Lemma take_step s h a :
   alookup h (heap s1) = Some (bump a).
 Proof.
   intros [A D Gu Gl P H] L s1.
-  destruct (PI_take _ _ _ _ _ _ P L) as (P1 & C1 & A1 & F1).
+  destruct (PI_take _ _ _ _ _ _ P L) as (P1 & C1 & A1 & F1 & Fi1).
   split; [split|].
   - constructor; cbn; auto. apply HI_aset; auto. intros v E. eapply hi_atok; eauto.
   - cbn. eapply hext_upd; eauto; cbn; lia.
-  - split; [split; [left; exact C1 | exact A1]|]. split; [exact C1|]. split; [exact F1|].
+  - split; [exact (conj (or_introl C1) (conj A1 (conj F1 Fi1)))|]. split; [exact C1|]. split; [exact F1|].
     cbn. apply alookup_aset_same.
 Qed.
 
@@ -521,11 +560,11 @@ Proof.
   - destruct (live_lookup _ _ O) as (a & L). rewrite (take_level_eq _ _ _ L), L in E.
     inversion E; subst. destruct (take_step _ _ _ I L) as (S1 & Pd & _). auto.
   - cbn in E. inversion E; subst. destruct I as [A D Gu Gl P H].
-    destruct (PI_fresh_uuid _ _ _ _ P) as (P1 & C1 & A1 & _).
+    destruct (PI_fresh_uuid _ _ _ _ P) as (P1 & C1 & A1 & _ & Fn & Fi).
     split; [split|].
     + constructor; cbn; auto.
     + apply hext_refl.
-    + split; [exact C1 | exact A1].
+    + exact (conj C1 (conj A1 (conj Fn Fi))).
 Qed.
 
 Lemma stamp_here_step s c mt fs s1 m :
@@ -643,10 +682,10 @@ Qed.
 
 Lemma new_sub_step s h u l ty sers :
   Inv s -> alookup h (heap s) = None -> hcovered (heap s) u l -> free_node (heap s) u l ->
-  asers_ok sers = true ->
+  asers_ok sers = true -> (forall m, In m (trace_of s i) -> place m <> mkplace u l) ->
   Step s (set_heap s h (mkAction u l 0 false [] ty sers None)).
 Proof.
-  intros [A D Gu Gl P H] L C F S. split; [|cbn; now apply hext_new].
+  intros [A D Gu Gl P H] L C F S Mx. split; [|cbn; now apply hext_new].
   constructor; cbn; auto.
   - destruct C as (h0 & a0 & k0 & L0 & U0 & EQ0 & K0).
     apply PI_new; cbn; auto.
@@ -661,7 +700,7 @@ Lemma new_root_step s h ty sers :
   Step s (set_heap (fst (fresh_uuid s)) h (mkAction (next_uuid s) [] 0 false [] ty sers None)).
 Proof.
   intros [A D Gu Gl P H] L S. split; [|cbn; now apply hext_new].
-  destruct (PI_fresh_uuid _ _ _ _ P) as (P1 & C1 & A1 & F1).
+  destruct (PI_fresh_uuid _ _ _ _ P) as (P1 & C1 & A1 & F1 & _ & _).
   constructor; cbn; auto.
   - apply PI_new; cbn; auto.
     + intros h0 a0 L0 U0 _. eapply F1; eauto.
@@ -669,6 +708,9 @@ Proof.
       rewrite Pm in Pm'. apply mkplace_inj in Pm' as [<- <-].
       destruct C as [(h0 & a0 & k0 & L0 & U0 & _)|(_ & C2 & _)]; [|lia].
       eapply F1; eauto.
+    + intros m I Q. destruct (pi_trace _ _ _ _ P m I) as (u & l0 & Pm' & C).
+      rewrite Q in Pm'. apply mkplace_inj in Pm' as [<- <-].
+      destruct (covered_nonempty _ _ _ _ C) as (p & k & E). destruct p; discriminate.
   - apply HI_aset; auto. cbn; discriminate.
 Qed.
 
@@ -686,7 +728,8 @@ Proof.
     assert (S2 : Step (set_heap s p (bump pa))
                       (set_heap (set_heap s p (bump pa)) h
                                 (mkAction (a_uuid pa) (nextpos pa) 0 false [] ty sers None))).
-    { apply new_sub_step; auto; [apply S1|]. cbn. now rewrite alookup_aset_other. }
+    { apply new_sub_step; auto;
+        [apply S1 | cbn; now rewrite alookup_aset_other | eapply pending_fresh; exact Pd]. }
     eapply Step_trans; [exact S1|]. eapply Step_trans; [exact S2|].
     apply start_message_step, S2.
   - cbn [fresh_uuid].
@@ -754,9 +797,10 @@ Proof.
 Qed.
 
 Lemma set_ids_step s slot u l :
-  Inv s -> hcovered (heap s) u l -> Step s (set_ids s (aset slot (u, l) (ids s))).
+  Inv s -> hcovered (heap s) u l -> (forall m, In m (trace_of s i) -> place m <> mkplace u l) ->
+  Step s (set_ids s (aset slot (u, l) (ids s))).
 Proof.
-  intros [A D Gu Gl P H] O. split; [|apply hext_refl]. constructor; cbn; auto. now apply PI_ids.
+  intros [A D Gu Gl P H] O Mx. split; [|apply hext_refl]. constructor; cbn; auto. now apply PI_ids.
 Qed.
 
 Lemma remove_dest_find id ds :
@@ -895,14 +939,17 @@ Proof.
   - (* OTraceback *) now apply write_traceback_step.
   - (* OSerializeId *)
     destruct (alookup h (heap s)) as [a|] eqn:L; [|now apply Step_refl].
-    rewrite (take_level_eq _ _ _ L). destruct (take_step _ _ _ I L) as (S1 & _ & C1 & _).
-    eapply Step_trans; [exact S1|]. apply set_ids_step; [apply S1 | exact C1].
+    rewrite (take_level_eq _ _ _ L). destruct (take_step _ _ _ I L) as (S1 & Pd & C1 & _).
+    eapply Step_trans; [exact S1|].
+    apply set_ids_step; [apply S1 | exact C1 | eapply pending_fresh; exact Pd].
   - (* OContinue *)
     destruct (alookup slot (ids s)) as [[u l]|] eqn:L; [|now apply Step_refl].
     apply andb_true_iff in O as [O1 O2].
     match goal with |- Step s (start_message cfg c ?s1 h fs) => assert (S1 : Step s s1) end.
-    { apply new_sub_step; auto using fresh_handle_spec, node_free_spec.
-      eapply pi_ids; eauto using inv_PI. }
+    { assert (Hc : hcovered (heap s) u l) by (eapply pi_ids; eauto using inv_PI).
+      assert (Hm : forall m, In m (trace_of s i) -> place m <> mkplace u l)
+        by (intros m Im; eapply pi_msg_ids; eauto using inv_PI).
+      apply new_sub_step; auto using fresh_handle_spec, node_free_spec. }
     eapply Step_trans; [exact S1|]. apply start_message_step, S1.
   - (* OSpawn *) apply set_ctx_step; auto. apply olive_cur, I.
   - (* OAddDests *)
@@ -1049,6 +1096,22 @@ Theorem C02_distinct_owners c0 ds ops :
 Proof.
   intros O D. rewrite final_eq in *.
   apply (pi_nodes _ _ _ _ (inv_PI _ _ (run_inv i cfg ops _ (Inv_start _ O) D))).
+Qed.
+
+(* the three kinds of use exclude each other where they must: a position carrying a
+   message is neither an action object's own level nor a serialized task id *)
+Theorem C02_exclusive c0 ds ops :
+  observed ds -> disciplined i cfg ops (registered ds) = true ->
+  (forall m h a, In m (trace_of (final c0 ds ops) i) ->
+     alookup h (heap (final c0 ds ops)) = Some a ->
+     (fget K_uuid m, fget K_level m) <> (Some (VUuid (a_uuid a)), Some (VLevel (a_level a)))) /\
+  (forall m slot u l, In m (trace_of (final c0 ds ops) i) ->
+     alookup slot (ids (final c0 ds ops)) = Some (u, l) ->
+     (fget K_uuid m, fget K_level m) <> (Some (VUuid u), Some (VLevel l))).
+Proof.
+  intros O D. rewrite final_eq in *.
+  pose proof (inv_PI _ _ (run_inv i cfg ops _ (Inv_start _ O) D)) as P.
+  split; [exact (pi_msg_node _ _ _ _ P) | exact (pi_msg_ids _ _ _ _ P)].
 Qed.
 
 End Theorems.
@@ -1617,7 +1680,8 @@ Proof.
     set (anew := mkAction (a_uuid pa) (nextpos pa) 0 false [] ty None None).
     set (s1 := set_heap s p (bump pa)) in *.
     assert (Lh1 : alookup h (heap s1) = None) by (cbn; now rewrite alookup_aset_other).
-    assert (S2 : Step i s1 (set_heap s1 h anew)) by (apply new_sub_step; auto; apply S1).
+    assert (S2 : Step i s1 (set_heap s1 h anew))
+      by (apply new_sub_step; auto; [apply S1 | eapply pending_fresh; exact Pd]).
     set (s2 := set_heap s1 h anew) in *.
     assert (L2 : alookup h (heap s2) = Some anew) by (cbn; apply alookup_aset_same).
     rewrite (start_message_eq _ _ _ _ _ L2 eq_refl).
@@ -1880,9 +1944,11 @@ Proof.
   - (* OContinue *)
     destruct (alookup slot (ids s)) as [[u l]|] eqn:L; [|exact C0].
     apply andb_true_iff in O1 as [O1 O3].
+    assert (Hc : hcovered (heap s) u l) by (eapply pi_ids; eauto using inv_PI).
+    assert (Hm : forall m, In m (trace_of s i) -> place m <> mkplace u l)
+      by (intros m Im; exact (pi_msg_ids _ _ _ _ (inv_PI _ _ I) m slot u l Im L)).
     eapply start_fresh_cinv; eauto using emit_ok_spec; try reflexivity; auto using fresh_handle_spec.
     apply new_sub_step; auto using fresh_handle_spec, node_free_spec.
-    eapply pi_ids; eauto using inv_PI.
   - (* OSpawn *) constructor; proj_set; auto.
   - (* OAddDests *)
     rewrite (inv_added _ _ I) in *. constructor; auto.
@@ -2204,7 +2270,8 @@ Proof.
     assert (S2 : Step i (set_heap s p (bump pa))
                       (set_heap (set_heap s p (bump pa)) h
                                 (mkAction (a_uuid pa) (nextpos pa) 0 false [] ty sers None))).
-    { apply new_sub_step; auto; [apply S1|]. cbn. now rewrite alookup_aset_other. }
+    { apply new_sub_step; auto;
+        [apply S1 | cbn; now rewrite alookup_aset_other | eapply pending_fresh; exact Pd]. }
     apply start_message_live; [apply S2|]. cbn. unfold live. rewrite alookup_aset_same. discriminate.
   - cbn [fresh_uuid]. pose proof (new_root_step i s h ty sers I O1 O2) as S2.
     apply start_message_live; [apply S2|]. cbn. unfold live. rewrite alookup_aset_same. discriminate.
@@ -2217,8 +2284,10 @@ Proof.
   intros I O L. cbn [op_ok api] in *. rewrite L in *. destruct v as [u l].
   apply andb_true_iff in O as [O1 O2].
   apply start_message_live.
-  - apply new_sub_step; auto using fresh_handle_spec, node_free_spec.
-    eapply pi_ids; eauto using inv_PI.
+  - assert (Hc : hcovered (heap s) u l) by (eapply pi_ids; eauto using inv_PI).
+    assert (Hm : forall m, In m (trace_of s i) -> place m <> mkplace u l)
+      by (intros m Im; exact (pi_msg_ids _ _ _ _ (inv_PI _ _ I) m slot u l Im L)).
+    apply new_sub_step; auto using fresh_handle_spec, node_free_spec.
   - cbn. unfold live. rewrite alookup_aset_same. discriminate.
 Qed.
 
@@ -2648,3 +2717,34 @@ Proof. intros O W ND. apply C02_unique; auto using C02_compile_disciplined. Qed.
 
 Example ex_wf : wf_prog [] Ex.prog0 = true /\ NoDup (declared Ex.prog0).
 Proof. split; [reflexivity|]. repeat constructor; cbn; intuition discriminate. Qed.
+
+(* The finish discipline of theorem 2 cannot be dropped (DESIGN F6, a known finding about
+   the library, faithfully reproduced by the model): a well-formed program -- so theorems 1
+   and 3 apply -- that calls finish() while the action is still the current one, run with a
+   second destination failing on end messages, leaves the action finished with its end
+   message NOT at the last position (the failure report follows it inside the action). *)
+Module Refute.
+Import Ex Ex2.
+Definition prog_f6 : list stmt :=
+  [ SAct 1 CtxFinish false (A 21) [] None [] [ SFinishAgain 1 None ] ].
+
+Theorem C02_unscoped_refuted :
+  let ops := fst (compile 0 prog_f6) in
+  let s := final cfg0 0 dests_f6 ops in
+  wf_prog [] prog_f6 = true /\ NoDup (declared prog_f6) /\
+  disciplined 0 cfg0 ops (registered dests_f6) = true /\
+  disciplined2 0 cfg0 ops (registered dests_f6) = false /\
+  exists a, alookup 1 (heap s) = Some a /\ a_finished a = true /\
+    ~ exists m, In m (trace_of s 0) /\
+        (fget K_uuid m, fget K_level m) =
+          (Some (VUuid (a_uuid a)), Some (VLevel (a_level a ++ [Pos.of_nat (a_last a)]))) /\
+        (fget K_status m = Some (VStatus Succeeded) \/ fget K_status m = Some (VStatus Failed)).
+Proof.
+  cbv zeta. split; [reflexivity|]. split; [repeat constructor; intros []|].
+  split; [vm_compute; reflexivity|]. split; [vm_compute; reflexivity|].
+  eexists. split; [vm_compute; reflexivity|]. split; [reflexivity|].
+  intros (m & I & P & E). vm_compute in I.
+  destruct I as [<-|[<-|[<-|[]]]]; vm_compute in P; try discriminate.
+  vm_compute in E. destruct E; discriminate.
+Qed.
+End Refute.
